@@ -501,7 +501,27 @@ func (ex *Exec) callSpec(fr *Frame, st *State, c *FuncContract, args []*Value, r
 			// speaks about ghost state private to the callee's own execution
 			continue
 		}
-		cond := ex.evalSpecBool(env, e.Expr)
+		var cond *Term
+		if (c.Mode == "bv") != ex.L.bv {
+			// the callee was verified in the other integer mode: a postcondition that does not
+			// evaluate in this one (bit-vector spec functions) is not assumed (assuming less is sound)
+			func() {
+				defer func() {
+					if r := recover(); r != nil {
+						if _, ok := r.(specError); !ok {
+							panic(r)
+						}
+						cond = nil
+					}
+				}()
+				cond = ex.evalSpecBool(env, e.Expr)
+			}()
+			if cond == nil {
+				continue
+			}
+		} else {
+			cond = ex.evalSpecBool(env, e.Expr)
+		}
 		ex.assume(st, cond)
 		if e.Trusted {
 			ex.usedExterns[c.Name+" [trusted postcondition "+e.Label+"]"] = true
@@ -1101,8 +1121,10 @@ func (ex *Exec) builtin(fr *Frame, st *State, name string, args []*Value, retT t
 		ex.atObligations(fr, st, "append", site, map[string]*Value{"$0": args[0], "$1": args[1]})
 		return ex.builtinAppend(st, args[0], args[1], retT, site)
 	case "copy":
+		ex.atObligations(fr, st, "copy", site, map[string]*Value{"$0": args[0], "$1": args[1]})
 		return ex.builtinCopy(st, args[0], args[1], site)
 	case "delete":
+		ex.atObligations(fr, st, "delete", site, map[string]*Value{"$0": args[0], "$1": args[1]})
 		ex.mapAccessObligations(fr, st, site)
 		ex.mapDelete(st, args[0], args[1])
 		return nil
